@@ -71,6 +71,22 @@ func genSendFaultsPlan(seed uint64, tier string) *Plan {
 	return p
 }
 
+// sfReader: every connection of the proxy, accepted or dialled, has the program's own receive loop on it (the proxy
+// starts one through its connection-accepted / connection-established callbacks). It is what notices that a peer
+// hung up and closes the proxy's side, which the send paths rely on; the cells run the real one.
+type sfNullHandler struct{}
+
+func (sfNullHandler) HandleRawMessage(msg *RawMessage) {}
+func (sfNullHandler) HandleMessage(msg *Message)       {}
+
+var sfLearn = NewSelfLearnRoute()
+
+func sfReader(conn net.Conn) {
+	if t := NewTCPServerTransportWithConn(conn, true, sfLearn); t != nil {
+		t.Start(sfNullHandler{})
+	}
+}
+
 type sfResult struct {
 	errs   []bool // Send returned an error, per message
 	msgs   [][]byte
@@ -127,6 +143,7 @@ func execSendFaults(t *testing.T, p *Plan) *Result {
 				}
 				host, _, _ := net.SplitHostPort(conn.RemoteAddr().String())
 				inbound[host] = conn
+				sfReader(conn)
 				accepting++
 			}
 		})
@@ -189,7 +206,7 @@ func execSendFaults(t *testing.T, p *Plan) *Result {
 				phase := 0
 				gate := &simrt.Gate{}
 				w.K.Spawn("sender-"+op.ID, true, func() {
-					mgr := NewClientTransportMgr(func(conn net.Conn) {})
+					mgr := NewClientTransportMgr(sfReader)
 					trans, err := mgr.GetTransport("tcp", dstIP, 5060, "10.0.0.1", "MESSAGE-"+op.ID)
 					if err != nil {
 						res.done = true
@@ -295,7 +312,7 @@ func execSendFaults(t *testing.T, p *Plan) *Result {
 				warmed := false
 				gate := &simrt.Gate{}
 				w.K.Spawn("sender-"+op.ID, true, func() {
-					be, err := NewTCPBackend("10.0.0.1:0", dst, func(conn net.Conn) {})
+					be, err := NewTCPBackend("10.0.0.1:0", dst, sfReader)
 					if err != nil {
 						res.done = true
 						return
@@ -426,6 +443,30 @@ func judgeSends(w *World, v func(rule, id, sig, format string, a ...interface{})
 			v("message-duplicated", op.ID, sig, "message %d: Send returned nil and the complete message was written %d times (connections %v)", k, complete, where)
 		case failed && complete > 0:
 			v("error-although-written", op.ID, sig, "message %d: Send returned an error although the complete message was accepted on connection(s) %v", k, where)
+		}
+		// "without loss": a send that reported success on a connection the peer had closed in an orderly way long
+		// before (the proxy's reader saw the end of stream at an earlier instant; a real socket in CLOSE_WAIT accepts
+		// the bytes and the peer answers with RST) has lost the message although a fresh connection was possible
+		if !failed && complete > 0 {
+			delivered := 0
+			streams := map[int][]byte{}
+			for _, dl := range w.Delivered {
+				if dl.Proto == "tcp" {
+					streams[dl.ConnID] = append(streams[dl.ConnID], dl.Data...)
+				}
+			}
+			for _, st := range streams {
+				delivered += bytes.Count(st, wire)
+			}
+			lostOn := -1
+			for _, e := range ends {
+				if e.LostWritten > 0 && bytes.Contains(e.Written, wire) {
+					lostOn = e.ID
+				}
+			}
+			if delivered == 0 && lostOn >= 0 {
+				v("message-lost-on-connection-the-peer-had-closed", op.ID, sig, "message %d: Send returned nil after writing the message on connection %d, which the peer had closed long before (end of stream had reached the proxy): the bytes were accepted and lost; nobody received the message", k, lostOn)
+			}
 		}
 		mustOK, mustFail := expect(k)
 		if mustOK && failed {
